@@ -31,6 +31,7 @@ type FontInfo struct {
 	ArabicGSUB                         bool               // GSUB has one of isol/fina/medi/init (otherwise Arabic fallback shaping is used)
 	ArabicFallbackLig                  bool               // cmap maps a first component of the synthesised fallback ligature lookups
 	NoOutlines                         bool               // no glyf / CFF / CFF2 table
+	COLR                               bool               // has a COLR table (HarfBuzz takes glyph extents from COLRv1 clip boxes)
 	AttachTags                         map[string]bool    // GPOS feature tags whose lookups contain cursive / mark attachment subtables
 	PairPos2Shadow                     [][]tables.PairPos // lookups where a PairPosFormat2 subtable is followed by another pair subtable
 	PairPos2Class0                     bool               // GPOS has a PairPosFormat2 subtable with ValueFormat2 != 0 or non-zero values in the class2 = 0 column
@@ -83,6 +84,7 @@ func infoFor(p *Pair) *FontInfo {
 	fi.Morx, fi.Kerx, fi.Trak = cf.HasMorx(), cf.HasKerx(), cf.HasTrak()
 	fi.Kern = cf.HasTable(hbref.Tag("kern"))
 	fi.Variable = cf.HasVarData()
+	fi.COLR = cf.HasTable(hbref.Tag("COLR"))
 	fi.NoOutlines = !cf.HasTable(hbref.Tag("glyf")) && !cf.HasTable(hbref.Tag("CFF ")) && !cf.HasTable(hbref.Tag("CFF2"))
 	if fi.Variable {
 		for _, ax := range cf.VarAxes() {
